@@ -781,3 +781,146 @@ Example C08_IpHeaders_ex_built :
 Proof. vm_compute. repeat split; reflexivity. Qed.
 End IPHEADERS.
 (* ---- end extend-c08c ---- *)
+
+(* ==== audit follow-up (round 1 audit, notes/audit1/C08.md) ================================== *)
+From EP Require Roundtrip.DecodersTotal Roundtrip.AuditFollowup Roundtrip.IpHeadersReadAny.
+From EP Require Equiv.ReadValues.
+Module AUDIT1.
+Import Roundtrip.Common Roundtrip.Eth Roundtrip.Vlan Roundtrip.Sll Roundtrip.Macsec Roundtrip.Arp Roundtrip.Ipv4 Roundtrip.Ipv6
+  Roundtrip.Auth Roundtrip.RawExt Roundtrip.Frag Roundtrip.Exts4 Roundtrip.Tcp Roundtrip.Udp Roundtrip.Icmp4 Roundtrip.Icmp6
+  Roundtrip.Igmp Roundtrip.Grec Roundtrip.Prefix Roundtrip.IpHeaders Roundtrip.DecodersTotal.
+Import Roundtrip.Common.
+
+(* ---- the decoders are total: no model failure on ANY input --------------------------------- *)
+(* The models return `Err EOOB` / `Err EPanic` where the transliterated code would read out of bounds
+   (get_unchecked, from_raw_parts), panic on a slice index / unwrap, or where a part model of C12 / C16
+   answers Panic / OutOfFuel / QBad / QUnderflow / QFuel.  The round-trip theorems above conclude `Ok`
+   and so exclude these values for accepted inputs and well-formed values only.  Here, for every input
+   -- rejected ones included -- every from_slice / read model of the 25 types returns `Ok _` or a proper
+   error: `proper r` = r is Ok _, Err ELen, Err (EContent _) or Err EIo; `qreg q` (C12's reader of
+   Ipv6Extensions, results of C16's qres) = q is QOk, QIo, QLen, QContent HopByHopNotAtStart or QContent
+   ZeroPayloadLen; `x6_proper` (C12's from_slice) = not Panic / OutOfFuel.
+   First theorem: no hypothesis at all (any list of numbers): the fixed-length types, MACsec, ICMP, IGMP,
+   group record, PrefixInformation, the readers of Ipv6Extensions behind a plain reader and behind a
+   LimitedReader of ANY budget. *)
+Theorem C08_decoders_total_any : forall bs,
+  proper (eth_from_slice bs) /\ proper (eth_read bs) /\
+  proper (vl_from_slice bs) /\ proper (vl_read bs) /\
+  proper (sll_from_slice bs) /\ proper (Sll.sll_read bs) /\
+  proper (mac_from_slice bs) /\ proper (mac_read bs) /\
+  proper (ip6_from_slice bs) /\ proper (ip6_read bs) /\
+  proper (frag_from_slice bs) /\ proper (frag_read bs) /\
+  proper (udp_from_slice bs) /\ proper (udp_read bs) /\
+  proper (icmp4_from_slice bs) /\ proper (icmp4_read bs) /\
+  proper (icmp6_from_slice bs) /\ proper (icmp6_read bs) /\
+  proper (igmp_from_slice bs) /\ proper (grec_from_slice bs) /\ proper (pi_from_slice bs) /\
+  (forall first, qreg (fst (ExtChain.ReadModel.read6 false first (IoFault.Model.mk_rstate (ExtChain.ReadModel.cursor bs) None)))) /\
+  (forall first mx ls off ly, qreg (fst (ExtChain.ReadModel.read6 true first (limited bs mx ls off ly)))).
+Proof. exact Roundtrip.DecodersTotal.decoders_total_any. Qed.
+Print Assumptions C08_decoders_total_any.
+
+(* types with a length octet / nibble (TCP data offset, IHL, AH payload length, extension header length,
+   ARP address sizes) and the composite types on top of them: for BYTES.  A "byte" >= 256 sends the model
+   into a buffer-index branch a real u8 cannot reach (witness: C08_decoders_total_ex). *)
+Theorem C08_decoders_total : forall bs, bytes_ok bs ->
+  proper (Tcp.from_slice bs) /\ proper (Tcp.read bs) /\
+  proper (ip4_from_slice bs) /\ proper (ip4_read bs) /\
+  proper (ah_from_slice bs) /\ proper (ah_read bs) /\
+  proper (rx_from_slice bs) /\ proper (rx_read bs) /\
+  proper (arp_from_slice bs) /\ proper (arp_read bs) /\
+  (forall p, arp_from_slice bs = Ok p -> proper (arp_try_eth_ipv4 p)) /\
+  (forall start, proper (x4_from_slice start bs) /\ proper (x4_read bs start)) /\
+  (forall first, x6_proper (ExtChain.Model.from_slice first bs)) /\
+  proper (iph_from_slice bs) /\ proper (iph_from_ipv4_slice bs) /\ proper (iph_from_ipv6_slice bs) /\
+  proper (iph_read bs).
+Proof. exact Roundtrip.DecodersTotal.decoders_total_bytes. Qed.
+Print Assumptions C08_decoders_total.
+
+(* from_bytes([u8; N]): the argument type fixes the length *)
+Theorem C08_from_bytes_total : forall b,
+  (len b = 14 -> proper (eth_from_bytes b)) /\ (len b = 4 -> proper (vl_from_bytes b)) /\
+  (len b = 16 -> proper (sll_from_bytes b)) /\ (len b = 8 -> proper (udp_from_bytes b)) /\
+  (len b = 32 -> proper (pi_from_bytes b)).
+Proof. exact Roundtrip.DecodersTotal.from_bytes_total. Qed.
+Print Assumptions C08_from_bytes_total.
+
+Example C08_decoders_total_ex :
+  ah_read ([17; 300] ++ repeat 0 10) = Err EPanic /\
+  ah_from_slice [17; 2; 0; 0; 0; 0; 0; 1; 0; 0; 0; 2; 1; 2; 3] = Err ELen /\
+  ah_read [17; 2; 0; 0; 0; 0; 0; 1; 0; 0; 0; 2; 1; 2; 3] = Err EIo /\
+  Tcp.from_slice (repeat 0 12 ++ [64] ++ repeat 0 7) = Err (EContent 4) /\
+  iph_read [69] = Err EIo /\ iph_read [64] = Err (EContent 0) /\
+  iph_from_slice [96; 0; 0; 0; 0; 8; 0; 64] = Err ELen.
+Proof. repeat split; vm_compute; reflexivity. Qed.
+
+(* ---- Ipv4Header::write, without the range hypothesis of C08_Ipv4_write_recomputes ------------- *)
+(* write = to_bytes of the header with header_checksum := calc_header_checksum(); the computed checksum IS
+   a u16; header_len bytes; equal to to_bytes(h) exactly when the field was consistent *)
+Theorem C08_Ipv4_write_recomputes_full : forall e h out, wf_ip4 h = true ->
+  exists ck b, ip4_calc_checksum e h = Some ck /\ ck < 65536
+    /\ ip4_to_bytes (ip4_set_checksum h ck) = Some b /\ ip4_write e out h = Some (out ++ b)
+    /\ len b = ip4_header_len h
+    /\ (i4_header_checksum h = ck -> ip4_to_bytes h = Some b).
+Proof. exact Roundtrip.AuditFollowup.ip4_write_recomputes_full. Qed.
+Print Assumptions C08_Ipv4_write_recomputes_full.
+
+Example C08_Ipv4_write_recomputes_full_ex :
+  wf_ip4 IPV4.ex_stale = true /\ ip4_calc_checksum Checksum.Model.LE IPV4.ex_stale = Some 12704 /\ i4_header_checksum IPV4.ex_stale = 0.
+Proof. repeat split; vm_compute; reflexivity. Qed.
+
+(* ---- IpHeaders::read of a written value, ANY continuation ------------------------------------ *)
+(* C08_IpHeaders_dec_enc has the read half for IPv6 under iph_read_room h rest
+   (payload_length - length of the extensions <= len rest: the reader still holds the announced payload),
+   a hypothesis inherited from C12's read_limited theorems, not a property of the code: IpHeaders::read
+   never looks at the payload.  Without it: for every well-formed value and every continuation of bytes --
+   also a Cursor that ends right behind the headers -- read returns the written value, the final number
+   and leaves exactly `rest` (a successful run of read_limited does not depend on the budget that is left
+   over: Roundtrip/IpHeadersReadAny.mono_read6). *)
+Theorem C08_IpHeaders_read_any : forall en h, iph_wf h = true ->
+  exists w, iph_write en h = (w, ExtChain.Model.Ok tt) /\ len w = iph_header_len h
+    /\ (forall rest, bytes_ok rest -> iph_read (w ++ rest) = Ok (iph_written en h, iph_final h, rest)).
+Proof. exact Roundtrip.IpHeadersReadAny.iph_read_any. Qed.
+Print Assumptions C08_IpHeaders_read_any.
+
+(* non-vacuity: IPHEADERS.ex_v6 announces 18 payload bytes; the reader ends behind the headers / one byte
+   later -- outside iph_read_room, accepted *)
+Example C08_IpHeaders_read_any_ex :
+  iph_wf IPHEADERS.ex_v6 = true /\ ~ iph_read_room IPHEADERS.ex_v6 [9] /\
+  iph_read IPHEADERS.ex_v6_bytes = Ok (IPHEADERS.ex_v6, 17, []) /\
+  iph_read (IPHEADERS.ex_v6_bytes ++ [9]) = Ok (IPHEADERS.ex_v6, 17, [9]).
+Proof.
+  split; [vm_compute; reflexivity|].
+  split; [intros H; vm_compute in H; apply H; reflexivity|].
+  split; vm_compute; reflexivity.
+Qed.
+
+(* ---- Ipv6Extensions: decode(encode) with the reader (was C08_Exts6_dec_enc_partial) ------------ *)
+(* C12 has since modelled Ipv6Extensions::read (ExtChain/ReadModel.v: read6 over C16's reader).  Every valid
+   struct whose chain walks to a non-extension number, any bytes behind: write emits header_len bytes,
+   from_slice returns the struct, the number and the rest, and read over a Cursor returns the same struct
+   and number, has pulled exactly the written bytes and leaves the rest. *)
+Theorem C08_Exts6_dec_enc : forall e first bs n rest, ExtChain.Model.exts6_valid e = true ->
+  ExtChain.Model.write e first = (bs, ExtChain.Model.Ok tt) -> ExtChain.Model.next_header e first = ExtChain.Model.Ok n ->
+  ExtChain.Spec.is_ext_number n = false -> bytes_ok rest ->
+  len bs = ExtChain.Model.header_len e /\
+  ExtChain.Model.from_slice first (bs ++ rest) = ExtChain.Model.Ok (e, n, rest) /\
+  exists s', ExtChain.ReadModel.read6 false first (IoFault.Model.mk_rstate (ExtChain.ReadModel.cursor (bs ++ rest)) None)
+             = (IoFault.Model.QOk (e, n), IoFault.Model.mk_rstate s' None)
+             /\ IoFault.Spec.src_data s' = rest /\ IoFault.Spec.src_pulled s' = len bs.
+Proof. exact Roundtrip.AuditFollowup.exts6_dec_enc_read. Qed.
+Print Assumptions C08_Exts6_dec_enc.
+
+Example C08_Exts6_dec_enc_ex :
+  let e := ExtChain.Model.mkExts6 (Some (ExtChain.Model.mkRaw 44 0 [1; 2; 3; 4; 5; 6])) None None
+             (Some (ExtChain.Model.mkFrag 17 1 true 1)) None in
+  ExtChain.Model.exts6_valid e = true /\
+  ExtChain.Model.write e 0 = ([44;0;1;2;3;4;5;6] ++ [17;0;0;9;0;0;0;1], ExtChain.Model.Ok tt) /\
+  ExtChain.Model.next_header e 0 = ExtChain.Model.Ok 17 /\ ExtChain.Spec.is_ext_number 17 = false.
+Proof. vm_compute. repeat split; reflexivity. Qed.
+
+(* ---- UdpHeader::from_bytes (not in C08_Udp_dec_enc) ------------------------------------------- *)
+Theorem C08_Udp_from_bytes : forall h, wf_udp h = true -> udp_from_bytes (udp_to_bytes h) = Ok h.
+Proof. exact Roundtrip.AuditFollowup.udp_from_bytes_dec_enc. Qed.
+Print Assumptions C08_Udp_from_bytes.
+End AUDIT1.
+(* ==== end audit follow-up ==== *)
